@@ -38,6 +38,8 @@ pub enum Book {
     B4,
     /// three orders: IC(2,3) S5 S3
     B5,
+    /// two special orders: IC(2,3) and RS(3,6,thr 2,amt 2,auto)
+    B6,
 }
 
 pub const BOOKS4: [Book; 4] = [Book::B1, Book::B2, Book::B3, Book::B4];
@@ -49,6 +51,7 @@ pub fn book_orders(b: Book) -> Vec<Ord_> {
         Book::B2 => vec![mk_ts(Tmpl::IC34, 1, p, 1), mk_ts(Tmpl::S5, 2, p, 2)],
         Book::B3 => vec![mk_ts(Tmpl::RS36, 1, p, 1), mk_ts(Tmpl::S5, 2, p, 2)],
         Book::B4 => vec![mk_ts(Tmpl::RSn, 1, p, 1), mk_ts(Tmpl::S5, 2, p, 2)],
+        Book::B6 => vec![mk_ts(Tmpl::IC23, 1, p, 1), mk_ts(Tmpl::RS36, 2, p, 2)],
         Book::B5 => vec![
             mk_ts(Tmpl::IC23, 1, p, 1),
             mk_ts(Tmpl::S5, 2, p, 2),
